@@ -405,12 +405,20 @@ inline PoolOutcome RunPool(int jobs,
             all.push_back(i);
     run_set(all, kind);
     // a worker that died or stalled is run once more, alone: only a failure that repeats is a verdict
+    bool verdict_reached = false;
     for (int i : all) {
         if (kind[i] == 0)
             continue;
         int first = kind[i];
         std::string where = blocks[i].current;
         std::vector<int> k2(jobs, 0);
+        if (verdict_reached) {
+            // one repeated failure is a verdict already; re-running every other failed worker alone would only cost (hang limit) x workers
+            out.crashed.push_back(i);
+            merged.exhaustive = false;
+            merged.Extra(Fmt("pool%d_worker%d_failed_not_rerun", my_seq, i), (u64)first);
+            continue;
+        }
         if (pc.shard_pool >= 0)
             k2[i] = first; // a shard replay is itself the second run
         else
@@ -427,6 +435,7 @@ inline PoolOutcome RunPool(int jobs,
         }
         out.crashed.push_back(i);
         merged.exhaustive = false;
+        verdict_reached = true;
         int st = out.status[i];
         std::string how = k2[i] == 2 ? Fmt("made no progress for %.0f s (twice)", hang_s)
                           : WIFSIGNALED(st) ? Fmt("died with signal %d (twice)", WTERMSIG(st)) : Fmt("exited with status %d (twice)", WIFEXITED(st) ? WEXITSTATUS(st) : -1);
